@@ -802,11 +802,15 @@ namespace foonathan
 
                 ~builder() noexcept
                 {
+                    if (!objects_)
+                        return; // released
+
                     for (std::size_t i = 0u; i != size_; ++i)
                         objects_[i].~T();
 
-                    if (size_)
-                        stack_->unwind(objects_);
+                    // the memory was taken before the first element was created,
+                    // so it is given back even if no element has been created
+                    stack_->unwind(objects_);
                 }
 
                 builder(builder&&)            = delete;
@@ -830,6 +834,7 @@ namespace foonathan
                 {
                     auto res = size_;
                     size_    = 0u;
+                    objects_ = nullptr;
                     return res;
                 }
 
